@@ -165,3 +165,4 @@ def run(ctx, prog):
     strkind(ctx, prog)
     from rules import c04
     c04.keyval(ctx, prog)
+    c04.pool_match(ctx, prog)
